@@ -2,7 +2,7 @@
    of an escape decode to the same byte in either letter case.  Two query strings that differ only in the letter
    case of the hex digits of well-formed escapes ([heq]) have the same decoded pairs (query_pairs_u_heq); two ASCII
    query strings of the class [q_lower_class] (no upper-case letter outside the hex digits of well-formed escapes)
-   that are equal under EqualFold are [heq] (class_heq).  Model: Model/UrlU.v, Model/IriEqU.v. *)
+   that are equal under the folding comparison (equalFold; on ASCII strings the same as EqualFold) are [heq] (class_heq).  Model: Model/UrlU.v, Model/IriEqU.v. *)
 From AP.Model Require Import Prelude Bytes Url IriEq IriNf Vocab Pred CollIri Utf8 FoldTab Fold UrlU IriEqU.
 From AP.Proofs Require Import NlvP LowerP IriEqP SortP IriGenP IriNfP IriXP Utf8P FoldP CleanUP.
 
@@ -197,13 +197,13 @@ Proof.
       * apply Same; [exact U|exact U'].
 Qed.
 
-Theorem class_heq q q' : q_lower_class q = true -> q_lower_class q' = true -> ucanon q = ucanon q' -> heq q q'.
+Theorem class_heq q q' : q_lower_class q = true -> q_lower_class q' = true -> scanon q = scanon q' -> heq q q'.
 Proof.
   unfold q_lower_class. rewrite !andb_true_iff. intros [A U] [A' U'] E.
   apply (class_heq_n (length q) q q' (Nat.le_refl _)); try assumption.
-  apply (ucanon_ascii_lower q q' A A'). exact E.
+  apply (scanon_ascii_lower q q' A A'). exact E.
 Qed.
 
-Theorem class_pairs q q' : q_lower_class q = true -> q_lower_class q' = true -> ucanon q = ucanon q' ->
+Theorem class_pairs q q' : q_lower_class q = true -> q_lower_class q' = true -> scanon q = scanon q' ->
   query_pairs_u q = query_pairs_u q'.
 Proof. intros C C' E. apply query_pairs_u_heq. apply class_heq; assumption. Qed.
